@@ -40,9 +40,10 @@ pub enum Kind {
     SaveReadSave,
     JoinMerge,
     FullVertex,
+    Storm,
 }
 
-const KINDS: [Kind; 29] = [
+const KINDS: [Kind; 30] = [
     Kind::Add,
     Kind::AddNext,
     Kind::NextOnly,
@@ -72,11 +73,12 @@ const KINDS: [Kind; 29] = [
     Kind::SaveReadSave,
     Kind::JoinMerge,
     Kind::FullVertex,
+    Kind::Storm,
 ];
 
 fn base_weights(prop: &str) -> Vec<(Kind, u32)> {
     use Kind::*;
-    let core = vec![(Add, 10), (AddNext, 4), (Bind, 16), (Put, 11), (Data, 12), (BigGroup, 1), (FullVertex, 1)];
+    let core = vec![(Add, 10), (AddNext, 4), (Bind, 16), (Put, 11), (Data, 12), (BigGroup, 1), (FullVertex, 1), (Storm, 1)];
     let mut w = core;
     match prop {
         "C01" => w.extend([
@@ -99,7 +101,7 @@ fn base_weights(prop: &str) -> Vec<(Kind, u32)> {
             (AddNext, 10), (NextOnly, 6), (Clone, 3), (CloneLinked, 1), (DropInst, 1), (Merge, 2), (Script, 3),
             (Save, 1), (Load, 1), (Crash, 1), (Cycle, 2), (RejectedMerge, 1),
         ]),
-        "C06" => w.extend([(Cycle, 30), (Save, 1), (Load, 1), (Crash, 1), (Merge, 1)]),
+        "C06" => w.extend([(Cycle, 30), (Save, 1), (Load, 1), (Crash, 1), (Merge, 1), (Slice, 2)]),
         "C07" => w.extend([
             (NextOnly, 1), (Clone, 2), (DropInst, 2), (Save, 3), (Load, 3), (Crash, 1), (Slice, 2), (Merge, 1),
             (Script, 1), (Oob, 5), (Damage, 3), (NewInst, 1), (Cycle, 2), (DrainClone, 1), (JoinMerge, 1),
@@ -196,6 +198,8 @@ pub fn pick_cfg(rng: &mut Rng, prop: &str, tier_thorough: bool) -> Cfg {
         contract: None,
         adopt_alive: false,
         judge: None,
+        log_level: 0,
+        sweep_every: 0,
     }
 }
 
@@ -205,6 +209,14 @@ impl Gen {
         let mut cfg = pick_cfg(&mut rng, prop, thorough);
         cfg.adopt_alive = matches!(prop, "C01" | "C03" | "C05");
         cfg.judge = Some(prop.to_string());
+        // how often the full read-only sweep runs (an observer that looks after every step keeps
+        // caches inside the code under test warm)
+        cfg.sweep_every = match rng.below(10) {
+            0 => 7,
+            1 => 64,
+            2 => 100_000,
+            _ => 1,
+        };
         // swarm: every kind keeps its base weight, is damped, or is switched off
         let base = base_weights(prop);
         let mut weights = vec![0_u32; KINDS.len()];
@@ -250,6 +262,8 @@ impl Gen {
             PLabel::S("a x".into()),
             PLabel::S("a y".into()),
             PLabel::S("a".into()),
+            PLabel::S("ax".into()),
+            PLabel::S(" ax".into()),
         ];
         let mut alphabet: Vec<PLabel> = pool.to_vec();
         rng.shuffle(&mut alphabet);
@@ -482,7 +496,7 @@ impl Gen {
         if m.adoptive
             && !matches!(
                 kind,
-                Kind::Put | Kind::Data | Kind::Clone | Kind::DropInst | Kind::Save | Kind::Slice | Kind::DrainClone | Kind::Reseed | Kind::Load | Kind::Crash
+                Kind::Put | Kind::Data | Kind::Clone | Kind::DropInst | Kind::Save | Kind::Slice | Kind::DrainClone | Kind::Reseed | Kind::Load | Kind::Crash | Kind::Storm
             )
         {
             return None;
@@ -559,6 +573,22 @@ impl Gen {
                 Some(Step::Data { i, v: view.name(v) })
             }
             Kind::Clone | Kind::CloneLinked => {
+                if self.rng.chance(1, 5) {
+                    // clone_from() into a graph that exists and was used
+                    let others: Vec<usize> = targets
+                        .iter()
+                        .copied()
+                        .filter(|j| {
+                            *j != i && view.followers(*j).is_empty() && {
+                                let o = view.insts[*j].as_ref().unwrap();
+                                !o.poisoned && o.m.cap == m.cap && !o.m.adoptive && !m.adoptive
+                            }
+                        })
+                        .collect();
+                    if let Some(dst) = others.first() {
+                        return Some(Step::CloneFrom { src: i, dst: *dst });
+                    }
+                }
                 if view.live().len() >= self.max_insts.max(2) + 1 {
                     return None;
                 }
@@ -648,7 +678,8 @@ impl Gen {
             }
             Kind::Slice => {
                 let v = self.pick_present(m)?;
-                let pred = match self.rng.below(8) {
+                let pred = match self.rng.below(9) {
+                    8 => Pred::PanicAt(self.rng.range(1, 4) as u8),
                     0..=2 => Pred::All,
                     3 => Pred::None,
                     4 => Pred::Hash(self.rng.next_u64(), self.rng.range(1, 7) as u8),
@@ -656,9 +687,12 @@ impl Gen {
                     6 => Pred::ToParity(self.rng.chance(1, 2)),
                     _ => Pred::FromParity(self.rng.chance(1, 2)),
                 };
-                let c = m.closure(v, &|f, t, l| pred_accepts(pred, f, t, l))?;
-                if c.len() > 14 {
-                    return None;
+                let has_clone_twin = view.followers(i).iter().any(|(_, k)| *k == crate::view::LinkKind::Clone);
+                match m.closure(v, &|f, t, l| pred_accepts(pred, f, t, l)) {
+                    Some(c) if c.len() <= 14 => {}
+                    // outside C13's domain: only worth a step when a clone twin answers it too (C10)
+                    _ if has_clone_twin => {}
+                    _ => return None,
                 }
                 let n = self.rng.range(2, if self.thorough { 12 } else { 6 });
                 let seeds = (0..n).map(|_| self.rng.next_u64()).collect();
@@ -687,6 +721,21 @@ impl Gen {
                 Some(Step::Empty { i: free[0] })
             }
             Kind::Script => {
+                if self.rng.chance(1, 4) {
+                    // two variables in one command, one name a prefix of the other
+                    let p = self.pick_present(m)?;
+                    let (l1, l2) = (self.label(), self.label());
+                    l1.script_text()?;
+                    l2.script_text()?;
+                    let k = self.rng.below(m.cap.max(2));
+                    let (a, b) = match self.rng.below(4) {
+                        0 => (format!("ν{k}"), format!("ν{k}{}", self.rng.below(10))),
+                        1 => (format!("ν{k}{}", self.rng.below(10)), format!("ν{k}")),
+                        2 => ("a".to_string(), "ab".to_string()),
+                        _ => ("x".to_string(), "y".to_string()),
+                    };
+                    return Some(Step::Script2 { i, p: view.name(p), l1, l2, a, b });
+                }
                 let lit = self.pick_present(m);
                 let l = self.label();
                 l.script_text()?;
@@ -778,6 +827,54 @@ impl Gen {
                 self.queue.push_back(Step::Drop { i: x });
                 self.queue.push_back(Step::Drop { i: y });
                 Some(Step::Empty { i: x })
+            }
+            Kind::Storm => {
+                // wrap-around counts: a multiple of 256 (or, rarely, of 65536), give or take a few
+                let base = match self.rng.below(if self.thorough { 6 } else { 24 }) {
+                    0 => 65_536,
+                    1 | 2 => 512,
+                    _ => 256,
+                };
+                // the count that makes a revision number wrap exactly depends on how many bumps the
+                // code under test makes around it: try the multiple itself and its close neighbours
+                let times = base + [0_usize, 1, 2, 2, 2, 3, 4][self.rng.below(7)] - 1;
+                if self.rng.chance(1, 3) {
+                    let v = self.pick_present(m)?;
+                    if !m.closure(v, &|_, _, _| true).is_some_and(|c| c.len() <= 14) {
+                        return None;
+                    }
+                    // afterwards an ordinary, fully judged slice of some vertex
+                    let w = self.pick_present(m)?;
+                    if m.closure(w, &|_, _, _| true).is_some_and(|c| c.len() <= 14) {
+                        let seeds = vec![self.rng.next_u64(), self.rng.next_u64()];
+                        self.queue.push_back(Step::Slice { src: i, v: view.name(w), pred: Pred::All, seeds, keep: None });
+                    }
+                    return Some(Step::SliceStorm { src: i, v: view.name(v), times });
+                }
+                if m.adoptive {
+                    return None;
+                }
+                for _ in 0..6 {
+                    let (v, t1, t2) = (self.pick_present(m)?, self.pick_present(m)?, self.pick_present(m)?);
+                    if v == t1 || v == t2 || t1 == t2 {
+                        continue;
+                    }
+                    let a = if !m.present[&v].edges.is_empty() && self.rng.chance(1, 2) {
+                        m.present[&v].edges[self.rng.below(m.present[&v].edges.len())].0.clone()
+                    } else {
+                        self.label()
+                    };
+                    let mut mm = m.clone();
+                    if !mm.can_bind(v, t1, &a) {
+                        continue;
+                    }
+                    mm.bind(v, t1, &a);
+                    if !mm.can_bind(v, t2, &a) {
+                        continue;
+                    }
+                    return Some(Step::Storm { i, v: view.name(v), a, t1: view.name(t1), t2: view.name(t2), times });
+                }
+                None
             }
             Kind::FullVertex => {
                 // a vertex that carries exactly N labels (the limit), spread over few targets, then a
